@@ -142,7 +142,7 @@ impl Scenario for ProgressStub {
         "progress_stub"
     }
     fn runs(&self, tier: Tier) -> u64 {
-        tier.pick(14_000, 160_000)
+        tier.pick(14_000, 640_000)
     }
     fn generate(&self, g: &mut Gen, _tier: Tier, _idx: u64) -> Value {
         let nc = match g.range(0, 9) {
@@ -199,7 +199,7 @@ impl Scenario for WorkerRxDrop {
         "worker_rx_drop"
     }
     fn runs(&self, tier: Tier) -> u64 {
-        tier.pick(8000, 60_000)
+        tier.pick(8000, 240_000)
     }
     fn generate(&self, g: &mut Gen, _tier: Tier, idx: u64) -> Value {
         let n_collect = g.usize(4, 20);
@@ -333,7 +333,7 @@ impl Scenario for ProgressReal {
         "progress_real"
     }
     fn runs(&self, tier: Tier) -> u64 {
-        tier.pick(2100, 20_000)
+        tier.pick(2100, 80_000)
     }
     fn generate(&self, g: &mut Gen, _tier: Tier, idx: u64) -> Value {
         use crate::props::c07::gen_spec;
